@@ -177,11 +177,17 @@ fn case(rep: &mut Report, seed: u64, index: u64) {
     if fams.len() > families().len() && index == 0 {
         rep.add("classes_with_overriding_defaults", (fams.len() - families().len()) as u64);
     }
-    let n = 2 + r.below(4);
+    // one case in 250 is a LARGE group (past 1024 instances of the class) whose last member alone carries one more
+    // property: shortcuts that writers take for big classes must not lose it
+    let large = index % 250 == 249;
+    let n = if large { 1026 + r.below(40) } else { 2 + r.below(4) };
     let gen_group = |r: &mut Rng| -> Vec<Inst> {
         (0..n)
-            .map(|_| {
+            .map(|i| {
                 let mut props: Inst = vec![];
+                if large && i + 1 == n {
+                    props.push(("ZzOddOneOut".to_owned(), Variant::Int32(77)));
+                }
                 for logical in fam {
                     if r.chance(1, 2) {
                         let (sp, ty) = logical[r.below(logical.len())];
@@ -217,7 +223,20 @@ fn case(rep: &mut Report, seed: u64, index: u64) {
         }
     }
     let db = dbwalk::db();
-    let perms = permutations(n, &mut r);
+    let perms = if large {
+        // identity, reversed, rotated by one
+        let id: Vec<usize> = (0..n).collect();
+        let mut rev = id.clone();
+        rev.reverse();
+        let mut rot = id.clone();
+        rot.rotate_left(1);
+        vec![id, rev, rot]
+    } else {
+        permutations(n, &mut r)
+    };
+    if large {
+        rep.count("cases.large-group");
+    }
     let mut outcomes: BTreeMap<String, usize> = BTreeMap::new();
     for perm in &perms {
         let insts: Vec<&Inst> = perm.iter().map(|i| &group[*i]).collect();
